@@ -60,4 +60,5 @@ size_t K_sub_numElements(const SubBoxArray3D<float> *a) { return a->SubBoxArray3
 size_t K_rep_numElements(const Array3DRepeater<float> *a) { return a->Array3DRepeater<float>::numElements(); }
 void K_sub_size(const SubBoxArray3D<float> *a, vec3i *out) { *out = a->SubBoxArray3D<float>::size(); }
 void K_actual_size(const ActualArray3D<float> *a, vec3i *out) { *out = a->ActualArray3D<float>::size(); }
+void K_actual_size_d(const ActualArray3D<double> *a, vec3i *out) { *out = a->ActualArray3D<double>::size(); }
 }
